@@ -606,12 +606,26 @@ def h_hydrogen_site(eng, kind, pre, then_complete, undo=False):
 # ---------------------------------------------------------------------------
 
 
-def _carboxylic_setup(resname):
+def _carboxylic_setup(resname, stretch=0):
     from pdb2pqr import debump, hydrogens
 
     base = {"ASH": "ASP", "GLH": "GLU"}[resname]
     lines = [ln for ln in fixtures.peptide_lines(["ALA", base, "ALA"]) if not ln.startswith("END")]
     lines = [(ln[:17] + resname + ln[20:]) if ln.startswith("ATOM") and int(ln[22:26]) == 2 else ln for ln in lines]
+    if stretch:
+        # one C-O bond 0.1 A longer than the other: the optimisation then offers candidates on that oxygen only
+        ref = fixtures.pristine_definition().map[base].map
+        ox = ("OD1", "OD2")[stretch - 1] if base == "ASP" else ("OE1", "OE2")[stretch - 1]
+        par = ref[[b for b in ref[ox].bonds if not b.startswith("H")][0]]
+        v = [ref[ox].x - par.x, ref[ox].y - par.y, ref[ox].z - par.z]
+        L = sum(x * x for x in v) ** 0.5
+        out = []
+        for ln in lines:
+            if ln.startswith("ATOM") and int(ln[22:26]) == 2 and ln[12:16].strip() == ox:
+                x, y, z = (float(ln[30:38]) + 0.1 * v[0] / L, float(ln[38:46]) + 0.1 * v[1] / L, float(ln[46:54]) + 0.1 * v[2] / L)
+                ln = ln[:30] + f"{x:8.3f}{y:8.3f}{z:8.3f}" + ln[54:]
+            out.append(ln)
+        lines = out
     lines.append(fixtures.atom_line(900, "O", "HOH", "W", 50, 3.0, 8.0, 2.0, record="HETATM"))
     bm, _ = fixtures.prepared(lines)
     if bm.num_missing_heavy:
@@ -632,7 +646,8 @@ def h_carboxylic_site(eng, resname, prop="C14"):
     from pdb2pqr.hydrogens import structures as hs
 
     cells, structures = _mods()
-    bm, deb, obj, routines = _carboxylic_setup(resname)
+    stretch = eng.choice("longer_c_o_bond", 3)  # 0: equal bonds (candidates on both oxygens), 1 / 2: the first / second is 0.1 A longer
+    bm, deb, obj, routines = _carboxylic_setup(resname, stretch)
     res = obj.residue
     log = _CoordLog()
     log.assign_cells(bm)
@@ -701,7 +716,10 @@ def h_carboxylic_site(eng, resname, prop="C14"):
                     obj.try_acceptor(ox, partner)
             history.append("complete")
             obj.complete()
-            routines.cleanup()
+            if prop != "C14":
+                # HydrogenRoutines.cleanup() is the last step that touches hydrogens in main.non_trivial: it deletes a spare
+                # acid proton without un-binning it, but no neighbour query can follow it, so it is not part of C14's claim
+                routines.cleanup()
         except (UnboundLocalError, AttributeError, KeyError, ValueError) as e:
             eng.check(True, "loud-failure-tolerated", note=f"{history}: {type(e).__name__}: {str(e)[:80]}")
             return
@@ -1025,7 +1043,7 @@ META = dict(
         "call sites: SER/CYS/LYS/ARG scans of 2-4 steps x 1-2 rounds; Water from five pre-states (bare, H1, H1+LP1, LP1+LP2, H1+LP1+LP2), Alcoholic from three, each with and without complete(); try_both undo from two pre-states each; Carboxylic: ASH (thorough also GLH), 0-2 attempts then complete + cleanup; all on one SER/ASH/HOH fixture",
     ],
     outside=[
-        "call sites not covered: Carboxylic.rename's removal of a pre-existing *2 hydrogen; the optimize.py try_* helpers are reached only as far as Water/Alcoholic finalize/try_both call them (they create, place, then bin). Covered call sites: Debump.set_dihedral_angle, the whole Debump.debump_residue scan (scan length / rounds reduced by patching DEBUMP_ANGLE_STEPS / DEBUMP_ANGLE_TEST_COUNT: the loop body is the same for every step), Flip, Water/Alcoholic finalize + complete + try_both undo, the Carboxylic optimisation",
+        "call sites not covered: HydrogenRoutines.cleanup() (last hydrogen step of non_trivial: no query follows it); the optimize.py try_* helpers are reached only as far as Water/Alcoholic finalize/try_both call them (they create, place, then bin). Covered call sites: Debump.set_dihedral_angle, the whole Debump.debump_residue scan (scan length / rounds reduced by patching DEBUMP_ANGLE_STEPS / DEBUMP_ANGLE_TEST_COUNT: the loop body is the same for every step), Flip, Water/Alcoholic finalize + complete + try_both undo, the Carboxylic optimisation",
         "floating-point: coordinates are exact reals; add_cell only compares with 0 and truncates, both exact on doubles",
         "histories longer than the stated bound",
     ],
